@@ -8,6 +8,7 @@
 package main
 
 import (
+	"encoding/json"
 	"flag"
 	"fmt"
 	"net/url"
@@ -422,6 +423,7 @@ func main() {
 	seed := vh.SeedFromEnv()
 	rep := vh.NewReport("C12", *tier, seed, "pairs (absolute base IRI, IRI reference) generated from the RFC 3987 grammar (hierarchical and opaque schemes, empty/absent authority, userinfo, ports, IP literals, non-ASCII and pct-encoded hosts, empty and dot segments, %xx of either case, empty vs absent query/fragment), byte-level mutations of the reference, bounded-exhaustive path pairs over a 5-component alphabet; non-trivial = the reference is relative and has a dot, a slash, a query, a fragment or is empty")
 	// Fork: vh.NewRng(k+1) is vh.NewRng(k) shifted by one draw; the first output is a well-mixed hash of the seed.
+	rep.Cases = []vh.Case{} // never null in the JSON report
 	g := &run{r: vh.NewRng(seed).Fork(), rep: rep, tri: map[string][]string{}}
 	fs, err := vh.LoadFindings(*findings)
 	if err != nil {
@@ -448,7 +450,20 @@ func main() {
 			fmt.Fprintln(os.Stderr, err)
 			os.Exit(2)
 		}
-		for _, l := range strings.Split(strings.TrimSpace(string(b)), "\n") {
+		lines := strings.Split(strings.TrimSpace(string(b)), "\n")
+		// a replay file written by ./check is JSON: take the protocol lines of its cases
+		var rj struct {
+			Violations, Disagreements []struct {
+				Op string `json:"op"`
+			}
+		}
+		if json.Unmarshal(b, &rj) == nil && len(rj.Violations)+len(rj.Disagreements) > 0 {
+			lines = lines[:0]
+			for _, c := range append(rj.Violations, rj.Disagreements...) {
+				lines = append(lines, c.Op)
+			}
+		}
+		for _, l := range lines {
 			f := strings.Fields(l)
 			un := func(t string) string { x, _ := vh.UnX(t); return string(x) }
 			switch {
